@@ -42,7 +42,7 @@ func runC19(a *Args) error {
 		"oras-go v2.5.0 oci.Store / graph.Memory / content.FetchAll / PackManifest behave as modelled from their source (C19_Model.v header); every history checks it against the real store",
 		"error classes are recognised by errors.Is / errors.As and by the fixed message prefixes of registry/repository.go",
 		"no deletion and no concurrent writer during a history",
-		"extra Go-side check, outside registry/repository.go: the layout is re-opened with registry.NewOCIRepository and every listing compared with the live one; oras-go's oci.New refuses to re-open a layout in which a stored manifest is referenced (as a subject) with another size (histogram reopen: layout-not-reopenable): counted and reported, not judged a violation of C19",
+		"extra Go-side check, outside registry/repository.go: the layout is re-opened with registry.NewOCIRepository and every listing compared with the live one; oras-go's oci.New refuses to re-open a layout in which a stored manifest is referenced (as a subject) with another size, or a manifest-typed reference carries an invalid digest string (histogram reopen: layout-not-reopenable): counted and reported, not judged a violation of C19",
 	}
 	n := 1200
 	if a.Tier == "thorough" {
